@@ -65,9 +65,10 @@ pub fn histories(p: u64, tier: Tier, heavy: bool) -> Vec<Vec<Action>> {
         out.push(vec![base.clone(), tx(vec![o.clone()]), reopen, tx(vec![ops[(i * 7 + 3) % ops.len()].clone(), ops[(i * 5 + 11) % ops.len()].clone()])]);
     }
     // shape-dependent deletions: empty the first leaves, everything, every other key
-    for mask in [0b001111u32, 0b111111, 0b010101, 0b110000, 0b000011] {
+    for (mi, mask) in [0b001111u32, 0b111111, 0b010101, 0b110000, 0b000011].into_iter().enumerate() {
         let dels: Vec<OpSpec> = keys.iter().enumerate().filter(|(i, _)| mask >> i & 1 == 1).map(|(_, k)| OpSpec::del(&["b"], k)).collect();
-        out.push(vec![base.clone(), tx(dels), tx(vec![OpSpec::put(&["b"], "k9", &third)])]);
+        // (continued by a handle opened with strict mode and / or map-populate toggled)
+        out.push(vec![base.clone(), tx(dels), Action::ReopenFlags(1 + (mi as u8 % 3)), tx(vec![OpSpec::put(&["b"], "k9", &third)]), tx(vec![OpSpec::del(&["b"], "k9"), OpSpec::put(&["b"], "k0", &over)])]);
     }
     // three-level tree: 14 keys of 0.2 P, delete a prefix, re-insert
     let klen = f(1, 5);
@@ -226,10 +227,12 @@ pub fn worker(idx: usize) {
         let j: Value = serde_json::from_str(job).unwrap();
         let or = Oracles { rets: true, dump_after: true, fileck: true, dbcheck: true, ..Oracles::NONE };
         if let Some(ps) = j["odd"].as_u64() {
-            // one create-commit-reopen history at an unusual page size; a clean refusal is fine
+            // one create-commit-reopen history at an unusual page size (or, with "np", an unusually small
+            // initial page count); a clean refusal is fine
             emit(&format!("odd {}", ps));
-            let refused = real::guarded(|| jammdb::OpenOptions::new().pagesize(ps).num_pages(8));
-            let cfg = Cfg { pagesize: ps, num_pages: 8, ..Cfg::default() };
+            let np = j["np"].as_u64().unwrap_or(8) as usize;
+            let refused = real::guarded(|| jammdb::OpenOptions::new().pagesize(ps).num_pages(np));
+            let cfg = Cfg { pagesize: ps, num_pages: np, ..Cfg::default() };
             if refused.is_err() {
                 return json!({"odd": ps, "outcome": "refused-by-builder", "v": []}).to_string();
             }
@@ -369,6 +372,13 @@ pub fn run(check: &mut Check) {
     for ps in odd_sizes() {
         jobs.push(json!({"odd": ps}).to_string());
         meta.push((format!("odd {}", ps), None));
+    }
+    // initial page counts below the four pages every database needs
+    for ps in [1024u64, 4096] {
+        for np in 0..4u64 {
+            jobs.push(json!({"odd": ps, "np": np}).to_string());
+            meta.push((format!("odd {} (num_pages {})", ps, np), None));
+        }
     }
     let mut histories_run = 0u64;
     let mut commits = 0u64;
